@@ -36,6 +36,8 @@ def groups(n, seed):
             rs["scaling"] = ("random", int(rng.integers(0, 2 ** 31)), 3)
         elif sc == 3:
             pk["scaling_type"] = [ScalingType.Nominal, ScalingType.GradJac, ScalingType.KKT][(i // 6) % 3]
+        elif sc == 4:
+            rs["scaling"] = ("objonly", int([3, -2, 1, -4][(i // 6) % 4]))       # only the objective is rescaled
         gs.append({"tag": "C01", "runs": [rs]})
     return gs
 
